@@ -75,10 +75,12 @@ void setup(vf::Options &o) {
   o.deadline_s = o.thorough ? 900 : 100;
   o.table_bits = 22;
   std::string k256 = "k" + std::string(255, 'x'), k257 = "k" + std::string(256, 'x');
-  g_keys = {"a", "b", "t1@sys", k256, "k05", /* invalid: */ "A", "", k257, "@x", "a b"};
+  // "k0" and "ab" are proper prefixes / extensions of other keys in play ("k00".."k09", "a"): lookups must
+  // compare whole keys (an independently seeded change made GetValue match on a prefix)
+  g_keys = {"a", "b", "ab", "k0", "t1@sys", k256, "k05", /* invalid: */ "A", "", k257, "@x", "a b"};
   std::string v256(256, 'v'), v257(257, 'v');
   g_values = {"1", "2", v256, "x y", /* invalid: */ "x ", "a,b", "a=b", "", v257, std::string("a\0b", 3)};
-  if (!o.thorough) { g_keys = {"a", "b", "t1@sys", "k05", k256, "A", "", k257}; g_values = {"1", "2", v256, "x ", "a,b", ""}; }
+  if (!o.thorough) { g_keys = {"a", "ab", "k0", "t1@sys", "k05", k256, "A", "", k257}; g_values = {"1", "2", v256, "x ", "a,b", ""}; }
 }
 
 List start_state(int which) {
@@ -197,7 +199,7 @@ void run_histories(vf::Ctx &c) {
 void run_headers(vf::Ctx &c) {
   static std::vector<std::string> seeds, inputs;
   if (seeds.empty()) {
-    seeds = {"", "a=1", "a=1,b=2", "t1@sys=v", "a=1,,b=2", "a=1, b=2", " a=1 ,b=2 ", "a=x y,b=2"};
+    seeds = {"", "a=1", "a=1,b=2", "ab=1,a=2", "t1@sys=v", "a=1,,b=2", "a=1, b=2", " a=1 ,b=2 ", "a=x y,b=2"};
     { List l = start_state(3); seeds.push_back(header_of(l)); l.emplace_back("k32", "v"); seeds.push_back(header_of(l)); }
     const std::string classes = std::string("a1A=,@ \t\x80;", 10) + std::string(1, '\0');
     for (auto &s : seeds) {
